@@ -262,6 +262,7 @@ struct Ran {
 extern std::vector<Ran> g_ran;
 extern std::vector<std::uintptr_t> g_passed;
 extern bool g_follow_next;
+extern bool g_next_null; // a definition asked to call next found its next cell null (a real one would crash)
 
 inline std::uintptr_t arg_repr(Obj& o) {
     return reinterpret_cast<std::uintptr_t>(&o);
@@ -459,6 +460,9 @@ struct DefFn {
         r.j = J;
         (r.args.push_back(arg_repr(a)), ...);
         g_ran.push_back(r);
+        if (g_follow_next && !next_cell) {
+            g_next_null = true;
+        }
         if (g_follow_next && next_cell) {
             using fp = int (*)(typename param<Policy, Tags>::arg...);
             return reinterpret_cast<fp>(next_cell)(std::forward<typename param<Policy, Tags>::arg>(a)...);
